@@ -95,10 +95,27 @@ def parseDimsList (s : String) : List Nat :=
   if s.isEmpty then [] else (s.splitOn ".").filterMap String.toNat?
 
 /-- `N` | `X` | `T,<dtcode>,<dims>` | `U[v/v/…]` is not needed at this level -/
+def findIdx {α} (p : α → Bool) : List α → Nat → Option Nat
+  | [], _ => none
+  | a :: rest, i => if p a then some i else findIdx p rest (i + 1)
+
+/-- `lib:name` -> dtype (index into the generated dtype list); unknown names map past the end (rejected by every class) -/
+def parseDT (s : String) : DT :=
+  match s.splitOn ":" with
+  | [lib, name] =>
+    let l := lib.toNat?.getD 0
+    match findIdx (fun (d : Nat × String × Nat) => d.1 == l && d.2.1 == name) Gen.dtypes 0 with
+    | some i => { lib := l, code := i }
+    | none => { lib := l, code := 100000 }
+  | _ => { lib := 0, code := 100000 }
+
+/-- class name -> row of the generated table -/
+def parseCls (s : String) : Nat := (findIdx (· == s) Gen.classNames 0).getD 100000
+
 def parseValue (s : String) : Value :=
   if s == "N" then .none else
   match s.splitOn "," with
-  | ["T", code, dims] => .tensor { dt := { lib := 0, code := code.toNat?.getD 0 }, shape := parseDimsList dims }
+  | ["T", dt, dims] => .tensor { dt := parseDT dt, shape := parseDimsList dims }
   | _ => .other
 
 inductive AnnSpec | absent | bad (e : String) | good (a : Ann)
@@ -109,7 +126,7 @@ def parseAnnSpec (s : String) : AnnSpec :=
   match s.splitOn "," with
   | cls :: opt :: rest =>
     let shape := ",".intercalate rest
-    match parseShape (optShape shape) (cls.toNat?.getD 0) (opt == "1") with
+    match parseShape (optShape shape) (parseCls cls) (opt == "1") with
     | .ok a => .good a
     | .error e => .bad (showShapeErr e)
   | _ => .bad "bad-op"
@@ -152,7 +169,7 @@ def opCheck (spec dt dims : String) : String :=
   | .absent => "bad-op"
   | .bad e => e
   | .good a =>
-    match check genAcc a { dt := { lib := 0, code := dt.toNat?.getD 0 }, shape := parseDimsList dims } "anonymous".toList with
+    match check genAcc a { dt := parseDT dt, shape := parseDimsList dims } "anonymous".toList with
     | .ok () => "ok"
     | .error r => showReport r
 
